@@ -57,7 +57,27 @@ pub fn worker_main(opts_path: &str, out_path: &str) {
             }
         })));
     }
+    if let Some(path) = &o.cpuinfo_override {
+        // private mount namespace: the bind mount is invisible to everybody else and disappears
+        // with this process
+        unsafe {
+            let root = std::ffi::CString::new("/").unwrap();
+            let src = std::ffi::CString::new(path.as_bytes()).unwrap();
+            let dst = std::ffi::CString::new("/proc/cpuinfo").unwrap();
+            let ok = libc::unshare(libc::CLONE_NEWNS) == 0
+                && libc::mount(std::ptr::null(), root.as_ptr(), std::ptr::null(), libc::MS_REC | libc::MS_PRIVATE, std::ptr::null()) == 0
+                && libc::mount(src.as_ptr(), dst.as_ptr(), std::ptr::null(), libc::MS_BIND, std::ptr::null()) == 0;
+            if !ok {
+                let v = json!({"outcome": "harness", "error": format!("cannot override /proc/cpuinfo: {}", std::io::Error::last_os_error())});
+                std::fs::write(out_path, serde_json::to_vec(&v).unwrap()).expect("write outcome");
+                return;
+            }
+        }
+    }
     let (out, _) = crate::dump::dump(&o);
+    if let (crate::dump::Outcome::Ok(img), Some(p)) = (&out, &o.image_out) {
+        let _ = std::fs::write(p, img);
+    }
     let v = match out {
         crate::dump::Outcome::Ok(img) => json!({"outcome": "ok", "len": img.len()}),
         crate::dump::Outcome::Err(e) => json!({"outcome": "err", "error": e.chars().take(300).collect::<String>()}),
@@ -124,6 +144,7 @@ pub fn run_worker(o: &DumpOpts, release: bool) -> WorkerOutcome {
                     Some(v) => match v["outcome"].as_str() {
                         Some("ok") => WorkerOutcome::Ok,
                         Some("err") => WorkerOutcome::Err(v["error"].as_str().unwrap_or("").to_string()),
+                        Some("harness") => WorkerOutcome::Harness(v["error"].as_str().unwrap_or("").to_string()),
                         Some("panic") => WorkerOutcome::Panic { message: v["message"].as_str().unwrap_or("").to_string(), location: v["location"].as_str().unwrap_or("").to_string() },
                         _ => WorkerOutcome::Harness("bad result".into()),
                     },
@@ -382,7 +403,7 @@ fn build_lane(rng: &mut Rng, lane: u64, with_root_sysv: bool) -> Result<Lane, St
         let mut img = built.bytes.clone();
         for _ in 0..rng.range(1, 3) {
             let f = rng.pick(&built.fields).clone();
-            let vals = elf::boundary_values(img.len(), f.size);
+            let vals = if rng.chance(1, 3) { elf::relational_values(&built.bytes, &built.fields, f.size) } else { elf::boundary_values(img.len(), f.size) };
             elf::set_field(&mut img, &f, *rng.pick(&vals));
         }
         let name = match k {
@@ -672,8 +693,94 @@ pub fn run(rep: &mut Report, thorough: bool, release: bool) {
     rep.rule = "live dumps in watchdogged worker subprocesses (RLIMIT_CPU 20 s, RLIMIT_AS 6 GiB, 90 s wall watchdog) of targets that map hostile linker chains (13 variants), corrupted ELF files under hostile names, /dev/shm files (inotify IN_OPEN monitor), a short /SYSV-like file name, hostile thread names; direct auxv extremes; crash registers drawn from {0,1,7,MAX-k,top of user space,vsyscall,every mapping bound +-1}; random option sets. Plus pure entry points (path/version derivation over generated names, get_stack_info over generated layouts) in-process. Outcome classes: ok/err fine; panic, abort, CPU limit, wall timeout are violations. distinct = hash(option set); non-trivial = every case".into();
     run_live(rep, thorough, release);
     if !release {
+        run_memory_images(rep, thorough);
         run_pure(rep, if thorough { 400_000 } else { 40_000 });
         rep.require("pure_name_version_calls", 1000);
     }
     rep.require("dev_open_checks", 50);
+}
+
+// ---------------------------------------------------------------------------------------------
+// ELF images in TARGET MEMORY: the harness rewrites a region of the target through
+// /proc/<pid>/mem and runs the process-memory readers on every corrupted image
+// ---------------------------------------------------------------------------------------------
+
+pub fn run_memory_images(rep: &mut Report, thorough: bool) {
+    use minidump_writer::module_reader::{BuildId, ProcessMemory, ProcessReader, ReadFromModule, SoName};
+    use std::os::unix::fs::FileExt;
+    crate::util::install_quiet_panic_hook();
+    let mut rng = Rng::new(rep.seed.wrapping_mul(20_240_202));
+    let mut b = Builder::new();
+    let pages = 8u64;
+    let ri = b.anon(pages, 4, 6, Fill::Zero);
+    let base = b.spec.regions[ri].addr;
+    let t = match Target::spawn(b.spec.clone(), &b.opts) {
+        Ok(t) => t,
+        Err(e) => {
+            rep.inconclusive(format!("memory-image target did not start: {e}"));
+            return;
+        }
+    };
+    let mem = match std::fs::OpenOptions::new().read(true).write(true).open(format!("/proc/{}/mem", t.pid)) {
+        Ok(f) => f,
+        Err(e) => {
+            rep.inconclusive(format!("cannot open /proc/<pid>/mem for writing: {e}"));
+            return;
+        }
+    };
+    let mut try_image = |rep: &mut Report, img: &[u8], what: String| {
+        let mut padded = img.to_vec();
+        padded.resize((pages * PAGE) as usize, 0);
+        padded.truncate((pages * PAGE) as usize);
+        if mem.write_all_at(&padded, base).is_err() {
+            rep.inconclusive("write to target memory failed".into());
+            return;
+        }
+        let r = std::panic::catch_unwind(|| {
+            let _ = BuildId::read_from_module(ProcessMemory::Process(ProcessReader::new(t.pid, base as usize)));
+            let _ = SoName::read_from_module(ProcessMemory::Process(ProcessReader::new(t.pid, base as usize)));
+        });
+        rep.case(fnv(what.as_bytes()), true);
+        rep.count("target_memory_images_read", 1);
+        if let Err(p) = r {
+            let loc = crate::util::short_loc(&crate::util::last_panic_loc());
+            let msg = crate::util::panic_message(&p);
+            let kind = if msg.contains("overflow") { "arithmetic overflow" } else if msg.contains("assertion") { "assertion" } else if msg.contains("out of range") { "index out of range" } else { "other" };
+            rep.violation(&format!("C02 process-memory ELF reader panicked at {loc} ({kind})"), json!({"image": what, "panic": msg}));
+        }
+    };
+    for (b64, section_only) in [(true, false), (true, true), (false, false)] {
+        let spec = ElfSpec { bits64: b64, phdr_note: if section_only { None } else { Some((1..=20).collect()) }, section_note: if section_only { Some((1..=20).collect()) } else { None }, soname: Some("libmem.so.1".into()), section_table: true, text: vec![0x90; 64], vaddr_bias: 0, data_pages: 1 };
+        let built = elf::build(&spec);
+        // in memory the section table of `build` lies beyond the loaded segments; here the whole file
+        // image is placed in memory, so every table is reachable
+        for f in &built.fields {
+            let mut vals = elf::boundary_values(built.bytes.len(), f.size);
+            vals.extend(elf::relational_values(&built.bytes, &built.fields, f.size));
+            vals.sort();
+            vals.dedup();
+            if !thorough && vals.len() > 60 {
+                // quick: all boundary values + a seeded sample of the relational ones
+                let keep: Vec<u64> = elf::boundary_values(built.bytes.len(), f.size);
+                let mut rest: Vec<u64> = vals.iter().copied().filter(|v| !keep.contains(v)).collect();
+                rng.shuffle(&mut rest);
+                rest.truncate(40);
+                vals = keep;
+                vals.extend(rest);
+            }
+            // dynamic-section values are where two fields are compared: always all values
+            if f.name.starts_with("dyn") {
+                vals = elf::boundary_values(built.bytes.len(), f.size);
+                vals.extend(elf::relational_values(&built.bytes, &built.fields, f.size));
+                vals.sort();
+                vals.dedup();
+            }
+            for v in vals {
+                let mut img = built.bytes.clone();
+                elf::set_field(&mut img, f, v);
+                try_image(rep, &img, format!("bits64={b64} section_only={section_only} {}={v:#x}", f.name));
+            }
+        }
+    }
+    rep.require("target_memory_images_read", 500);
 }
